@@ -422,7 +422,7 @@ func (m *Manager) revertTip() error {
 	}
 	cru := consensus.RevertBlock(cs, b, *bs)
 	m.store.RevertBlock(cs, cru)
-	m.revertPoolUpdate(cru, cs)
+	m.revertPoolUpdate(b, cru, cs)
 	m.tipState = cs
 	return nil
 }
@@ -934,7 +934,7 @@ func checkEphemeralOutputs(txns []types.V2Transaction) error {
 	return nil
 }
 
-func (m *Manager) revertPoolUpdate(cru consensus.RevertUpdate, cs consensus.State) {
+func (m *Manager) revertPoolUpdate(b types.Block, cru consensus.RevertUpdate, cs consensus.State) {
 	// applying a block can make ephemeral elements in the txpool non-ephemeral;
 	// here, we undo that
 	var uncreated map[types.Hash256]bool
@@ -961,6 +961,18 @@ func (m *Manager) revertPoolUpdate(cru consensus.RevertUpdate, cs consensus.Stat
 			for _, v2fced := range cru.V2FileContractElementDiffs() {
 				if v2fced.Created {
 					uncreated[types.Hash256(v2fced.V2FileContractElement.ID)] = true
+				}
+			}
+			// outputs of the block's v1 transactions are no ephemeral parents
+			// for v2 transactions: a v2 transaction set cannot carry a v1
+			// parent. Their spenders keep a proof that no longer exists and
+			// are dropped by the proof update below
+			for _, txn := range b.Transactions {
+				for i := range txn.SiacoinOutputs {
+					delete(uncreated, types.Hash256(txn.SiacoinOutputID(i)))
+				}
+				for i := range txn.SiafundOutputs {
+					delete(uncreated, types.Hash256(txn.SiafundOutputID(i)))
 				}
 			}
 		}
